@@ -470,6 +470,9 @@ func c06Run(rng *prng, cfg c06Cfg) {
 	var prevStep = float64(cfg.init)
 	var lastReturn uint64
 	var returnsSeen int
+	if until0 != uint64(cfg.init) && c06suppressInit {
+		c06stats["observed_first_countdown_differs_from_large_init"]++
+	}
 	if until0 != uint64(cfg.init) && !c06suppressInit {
 		c06oracle(cfg, 0, "the first countdown is not the configured initial number of iterations", J{"until0": until0})
 	}
@@ -562,7 +565,15 @@ func c06Run(rng *prng, cfg c06Cfg) {
 		}
 
 		// ---- implementation-side oracle: the property evaluated on what the real code did ----
-		held := c06contains(archBefore, cand)
+		dominatedBefore := false
+		for _, v := range archVecsBefore {
+			if c06paretoLt(v, candVec) {
+				dominatedBefore = true
+			}
+		}
+		// "already holds its action set" (a held action set that is also dominated cannot occur in a mutually
+		// non-dominated solution set with values a function of the action set: C05/C01, not judged here)
+		held := c06contains(archBefore, cand) && !dominatedBefore
 		stored := strings.HasPrefix(rec.verdict, "Stored")
 		moved := rec.decision == 0 || rec.decision == 1
 		ctx := J{"cand": cand, "candVec": candVec, "cur": curBefore, "curVec": vecBefore, "archive": archBefore,
@@ -583,13 +594,7 @@ func c06Run(rng *prng, cfg c06Cfg) {
 				c06oracle(cfg, it, "coolant consulted for a candidate that is stored or already held", ctx)
 			}
 		} else {
-			dominated := false
-			for _, v := range archVecsBefore {
-				if c06paretoLt(v, candVec) {
-					dominated = true
-				}
-			}
-			if !dominated {
+			if !dominatedBefore {
 				c06oracle(cfg, it, "candidate neither stored, held nor dominated by the solution set", ctx)
 			}
 			// acceptance probability from the definition: product / mean of exp(-|change_i|/T)
